@@ -161,6 +161,45 @@ func h18b() {
 
 func H18b_q() { h18b() }
 
+// H18m: metadata with several keys (two of them binary) -> header list: every key keeps its own values.
+func H18m_q() {
+	keys := [3]string{"x-a-bin", "x-b-bin", "x-c"}
+	src := metadata.MD{}
+	var raws [3][2]string
+	var nvs [3]int
+	for k := 0; k < 3; k++ {
+		nvs[k] = vIntAt("nvals", k, 3, 1, 2)
+		vals := make([]string, 0, 2)
+		for i := 0; i < nvs[k]; i++ {
+			raws[k][i] = vRaw(vIntAt("val", k*2+i, 6, 0, 1))
+			vals = append(vals, raws[k][i])
+		}
+		src[keys[k]] = vals
+	}
+	out := ConvertMetadataToProtoHeader(src)
+	vAssert(len(out) == 3, "every key of the metadata yields one header")
+	for k := 0; k < 3; k++ {
+		found := 0
+		for _, h := range out {
+			if h.Name != keys[k] {
+				continue
+			}
+			found++
+			vAssert(len(h.Value) == nvs[k], "every value of the key is preserved")
+			for i := 0; i < 2; i++ {
+				if i < nvs[k] && i < len(h.Value) {
+					want := raws[k][i]
+					if k < 2 {
+						want = connect.EncodeBinaryHeader([]byte(raws[k][i]))
+					}
+					vAssert(h.Value[i] == want, "each key keeps its own values in order (-bin values base64-encoded exactly once), whatever other keys the metadata holds")
+				}
+			}
+		}
+		vAssert(found == 1, "each key appears exactly once")
+	}
+}
+
 // ---- H18f: header lists with repeated keys (same name twice, or names differing only in case) ----
 
 func vKey2(k int) string {
